@@ -13,7 +13,7 @@ from vfw import statespace, svc
 LEVEL = 'model_checking'
 ASSUMPTIONS = [
     'codec alphabet: components are strings over {a, :, \\, u-umlaut} up to the stated length, tuples up to 3 components',
-    'map alphabet: scopes {study, trial 1, trial 2, missing trial 9}, namespaces {(), (a), (a,b), (a:), (a\\)}, keys {k1,k2}, values {"", v, w, packed Duration}; reserved algorithm namespaces written through the scripted policy',
+    'map alphabet: scopes {study, trial 1, trial 2, missing trial 9}, namespaces {(), (a), (a,b), (a:), (a\\)}, keys {k1,k2}, values {"", v, w, packed Duration (non-empty and empty payload), packed Timestamp}; reserved algorithm namespaces written through the scripted policy',
     'values are compared exactly (strings by equality, protos by type_url + bytes)',
 ]
 
@@ -73,7 +73,7 @@ def codec_shard(task):
 # ------------------------------------------------------------------------------------------------
 NSS = [(), ('a',), ('a', 'b'), ('a:',), ('a\\',)]
 KEYS = ['k1', 'k2']
-VALS = ['', 'v', 'w', ('proto', 3)]
+VALS = ['', 'v', 'w', ('proto', 3), ('proto', 0), ('proto-ts', 0), ('proto-ts', 5)]
 ALGO_NS = ('designer_policy_v0',)
 _SYS = {}
 
@@ -151,16 +151,17 @@ class MetaSystem:
   @staticmethod
   def _val(v):
     if isinstance(v, tuple):
-      from google.protobuf import duration_pb2
-      return duration_pb2.Duration(seconds=v[1])
+      from google.protobuf import duration_pb2, timestamp_pb2
+      # seconds=0 serialises to zero bytes: a packed proto with an empty payload
+      return duration_pb2.Duration(seconds=v[1]) if v[0] == 'proto' else timestamp_pb2.Timestamp(seconds=v[1])
     return v
 
   @staticmethod
   def _mval(v):
     if isinstance(v, tuple):
-      from google.protobuf import any_pb2, duration_pb2
+      from google.protobuf import any_pb2
       a = any_pb2.Any()
-      a.Pack(duration_pb2.Duration(seconds=v[1]))
+      a.Pack(MetaSystem._val(v))
       return ('proto', a.type_url, bytes(a.value))
     return ('str', v)
 
@@ -298,9 +299,12 @@ def run(ctx):
   # ---- part B
   if ctx.quick:
     plans = [({'backends': ['ram', 'sqlmem'], 'scopes': ['S', 1], 'ns': [0, 1, 3], 'vals': [0, 1, 3], 'max_entries': 3}, 2),
-             ({'backends': ['ram'], 'scopes': ['S', 1, 2], 'ns': [0, 1, 2, 3, 4], 'vals': [1, 2], 'max_entries': 2}, 3)]
+             ({'backends': ['ram'], 'scopes': ['S', 1, 2], 'ns': [0, 1, 2, 3, 4], 'vals': [1, 2], 'max_entries': 2}, 3),
+             # value-kind transitions on one cell: str <-> proto, proto -> empty-payload proto, proto type change
+             ({'backends': ['ram', 'sqlmem'], 'scopes': ['S', 1], 'ns': [0, 1], 'vals': [0, 1, 3, 4, 5, 6], 'max_entries': 1}, 3)]
   else:
     plans = [({'backends': ['ram', 'sqlmem'], 'scopes': ['S', 1, 2], 'ns': [0, 1, 2, 3, 4], 'vals': [0, 1, 2, 3], 'max_entries': 3}, 3),
+             ({'backends': ['ram', 'sqlmem'], 'scopes': ['S', 1], 'ns': [0, 1], 'vals': [0, 1, 3, 4, 5, 6], 'max_entries': 2}, 4),
              ({'backends': ['ram'], 'scopes': ['S', 1], 'ns': [0, 1, 3], 'vals': [1, 2, 3], 'max_entries': 3}, 4)]
   cov.update({'states': 0, 'transitions': 0, 'traces_validated_against_impl': 0, 'samples': [], 'runs': [], 'exhaustive': True})
   for cfg, depth in plans:
